@@ -73,4 +73,12 @@ example : H (fun j => [3, 5, 4].getD j 0) 3 ∧ H (insert (fun j => [3, 5, 4].ge
     rcases this with rfl | rfl <;> decide
   exact ⟨h, insert_heap 1 h⟩
 
+/-- **the kernel timer is reprogrammed whenever the earliest key changes**: an operation that leaves `dth_needs_program` down
+    (no store into a root slot) leaves the root key — what the kernel timer was programmed for — unchanged; and re-keying the
+    root itself always raises the flag -/
+theorem reprogram_when_root_changes (a : Arr) (n k x : Nat) :
+    (insertW a n x = false → insert a n x 0 = a 0) ∧ (removeW a n k = false → remove a n k 0 = a 0) ∧
+    (updateW a k x = false → update a n k x 0 = a 0) ∧ updateW a 0 x = true :=
+  ⟨insert_root a n x, remove_root a n k, update_root a n k x, update_root_flag a x⟩
+
 end C11
